@@ -25,6 +25,12 @@ Proofs/NameWireP.vos Proofs/NameWireP.vok Proofs/NameWireP.required_vos: Proofs/
 Proofs/NameWireSP.vo Proofs/NameWireSP.glob Proofs/NameWireSP.v.beautified Proofs/NameWireSP.required_vo: Proofs/NameWireSP.v Base/ListX.vo Spec/NameWireS.vo
 Proofs/NameWireSP.vio: Proofs/NameWireSP.v Base/ListX.vio Spec/NameWireS.vio
 Proofs/NameWireSP.vos Proofs/NameWireSP.vok Proofs/NameWireSP.required_vos: Proofs/NameWireSP.v Base/ListX.vos Spec/NameWireS.vos
+Proofs/RdNameP.vo Proofs/RdNameP.glob Proofs/RdNameP.v.beautified Proofs/RdNameP.required_vo: Proofs/RdNameP.v Base/ListX.vo Model/NameWire.vo Spec/NameWireS.vo Spec/NameRepr.vo Proofs/NameWireP.vo Proofs/NameWireSP.vo Model/RdataM.vo Spec/RdataFormatS.vo
+Proofs/RdNameP.vio: Proofs/RdNameP.v Base/ListX.vio Model/NameWire.vio Spec/NameWireS.vio Spec/NameRepr.vio Proofs/NameWireP.vio Proofs/NameWireSP.vio Model/RdataM.vio Spec/RdataFormatS.vio
+Proofs/RdNameP.vos Proofs/RdNameP.vok Proofs/RdNameP.required_vos: Proofs/RdNameP.v Base/ListX.vos Model/NameWire.vos Spec/NameWireS.vos Spec/NameRepr.vos Proofs/NameWireP.vos Proofs/NameWireSP.vos Model/RdataM.vos Spec/RdataFormatS.vos
+Proofs/RdataFormatSP.vo Proofs/RdataFormatSP.glob Proofs/RdataFormatSP.v.beautified Proofs/RdataFormatSP.required_vo: Proofs/RdataFormatSP.v Base/ListX.vo Spec/NameWireS.vo Proofs/NameWireP.vo Proofs/NameWireSP.vo Model/RdataM.vo Spec/RdataFormatS.vo Proofs/RdNameP.vo
+Proofs/RdataFormatSP.vio: Proofs/RdataFormatSP.v Base/ListX.vio Spec/NameWireS.vio Proofs/NameWireP.vio Proofs/NameWireSP.vio Model/RdataM.vio Spec/RdataFormatS.vio Proofs/RdNameP.vio
+Proofs/RdataFormatSP.vos Proofs/RdataFormatSP.vok Proofs/RdataFormatSP.required_vos: Proofs/RdataFormatSP.v Base/ListX.vos Spec/NameWireS.vos Proofs/NameWireP.vos Proofs/NameWireSP.vos Model/RdataM.vos Spec/RdataFormatS.vos Proofs/RdNameP.vos
 Props/C14.vo Props/C14.glob Props/C14.v.beautified Props/C14.required_vo: Props/C14.v Base/ListX.vo Model/NameWire.vo Spec/NameWireS.vo Spec/NameRepr.vo Proofs/NameWireP.vo Proofs/NameWireSP.vo
 Props/C14.vio: Props/C14.v Base/ListX.vio Model/NameWire.vio Spec/NameWireS.vio Spec/NameRepr.vio Proofs/NameWireP.vio Proofs/NameWireSP.vio
 Props/C14.vos Props/C14.vok Props/C14.required_vos: Props/C14.v Base/ListX.vos Model/NameWire.vos Spec/NameWireS.vos Spec/NameRepr.vos Proofs/NameWireP.vos Proofs/NameWireSP.vos
